@@ -162,14 +162,78 @@ let run_full toks =
     Buffer.contents out
   | _ -> "badline"
 
+(* runner <watch> <at>:<ev>...: replay of the script against the node model with the Ticks the runner's loop
+   produces (first Tick at 200, then runner_next).  Predicted writes "<d|z><ns>.<nr>@<ms>".  The implementation's
+   line (real timers) is accepted when it has the same writes in the same order, each within [-120, +400] ms of
+   the prediction; then it is echoed, otherwise the prediction is printed (=> mismatch). *)
+let run_runner toks impl =
+  match toks with
+  | watch :: evs ->
+    let watch = ios watch in
+    let evs = List.map (fun e -> match String.split_on_char ':' e with [a; k] -> (ios a, k) | _ -> (0, "")) evs in
+    let e0 = apply_peer_window (new_endpoint Z0 Z0 Z0 Z0 (zi 16) Z0 Z0) (Some (zi 16)) in
+    let n = ref { n_known = true; n_ep = e0 } in
+    let log = ref [] in
+    let seen = ref 0 in
+    let note t =
+      let sent = !n.n_ep.e_sent in
+      List.iteri (fun i q -> if i >= !seen then
+          log := !log @ [((if q.k_body = None then "z" else "d"), iz q.k_ns, iz q.k_nr, t)]) sent;
+      seen := List.length sent in
+    let peer_ns = ref 1 and acked = ref 1 in
+    let data ns nr = { k_body = Some (zi 1); k_sid = Z0; k_ns = zi ns; k_nr = zi nr } in
+    let msg p rep t = n := node_step !n (NMsg ({ m_tid_ok = true; m_pkt = p; m_replies = rep; m_removes = false }, zi t)); note t in
+    msg (data 0 0) [(zi 1, Z0)] 0;
+    let tick_t = ref 200 in
+    let do_event (at, k) =
+      (match k with
+       | "scccn" | "hello" -> msg (data !peer_ns !acked) [] at; incr peer_ns
+       | "icrq" -> msg (data !peer_ns !acked) [(zi 1, Z0)] at; incr peer_ns
+       | "ack" ->
+         acked := iz !n.n_ep.e_ch.c_ns;
+         msg { k_body = None; k_sid = Z0; k_ns = zi !peer_ns; k_nr = zi !acked } [] at
+       | _ -> ()) in
+    let pending = ref evs in
+    let continue = ref true in
+    while !continue do
+      (match !pending with
+       | (at, k) :: rest when at <= !tick_t && at <= watch -> do_event (at, k); pending := rest
+       | _ ->
+         if !tick_t > watch then continue := false
+         else begin
+           let (e', o) = ep_tick !n.n_ep (zi !tick_t) [] in
+           n := { !n with n_ep = e' }; note !tick_t;
+           (match o with OTick (ret, _, _) -> tick_t := iz (runner_next ret (zi !tick_t)) | _ -> tick_t := !tick_t + 500)
+         end)
+    done;
+    let pred = List.filter (fun (_, _, _, t) -> t <= watch - 150) !log in
+    let show (k, ns, nr, t) = Printf.sprintf "%s%d.%d@%d" k ns nr t in
+    let parse tok = (* d0.1@251 *)
+      try Scanf.sscanf tok "%c%d.%d@%d" (fun k ns nr t -> Some (String.make 1 k, ns, nr, t)) with _ -> None in
+    let obs = match tokens impl with "runner" :: l -> List.filter_map parse l | _ -> [] in
+    (* writes predicted close to the end of the watch window may or may not have been observed *)
+    let rec admissible p o = match p, o with
+      | [], [] -> true
+      | [], (_, _, _, t) :: r -> t > watch - 150 - 120 && admissible [] r
+      | (k, ns, nr, t) :: pr, (k', ns', nr', t') :: orr ->
+        k = k' && ns = ns' && nr = nr' && t' >= t - 120 && t' <= t + 400 && admissible pr orr
+      | _ :: _, [] -> false in
+    if obs <> [] && admissible pred obs then impl
+    else "runner " ^ String.concat " " (List.map show !log) ^ " (predicted)"
+  | _ -> "badline"
+
 let () =
   let lines = read_lines Sys.argv.(1) in
+  let impls = if Array.length Sys.argv > 2 && Sys.argv.(2) <> "-" then Array.of_list (read_lines Sys.argv.(2)) else [||] in
+  let idx = ref (-1) in
   (* one model: what /repo HEAD does (all C16 findings are fixed); the pre-fix behaviours survive only as
      the refuted theorem in Properties.v, not in the correspondence *)
   let zlb_recv = false in
   List.iter (fun line ->
+      incr idx;
       match tokens line with
       | [] -> ()
+      | "runner" :: rest -> print_endline (run_runner rest (if !idx < Array.length impls then impls.(!idx) else ""))
       | "pair" :: rest -> print_endline (run_pair zlb_recv rest)
       | "disp" :: rest -> print_endline (run_disp zlb_recv rest)
       | "full" :: rest -> print_endline (run_full rest)
